@@ -27,7 +27,7 @@ RULE = ("one case = (shape = class shared by the threads, 2-3 thread operations 
         "AND with the Lean model's prediction for the observed event order; stream E: same schedules on nested "
         "collections, AnyOf/OneOf/AllOf/NotField, ImmutableSet, nested structures, scalars (oracle only); stream B: "
         "construct/deserialize/setattr/serialize mixes, pre-emption at ANY line of ANY typedpy file, sampled schedules "
-        "(oracle only); twin streams (A/E/B): the same declaration spelling (Optional[..], AnyOf[.., None], X | None, Union, list[Optional], Array/Set/Map/Tuple, ...) written out freshly for two differently named fields and a second class, every thread on a DIFFERENT declaration, explicit None / values the earlier options reject / valid values, directed None||None and None||rejected cases - must be sequential. evaluations counts cases; each case runs 25-1500 schedules (histogram schedules-per-case). "
+        "(oracle only); twin streams (A/E/B): the same declaration spelling (Optional[..], AnyOf[.., None], X | None, Union, list[Optional], Array/Set/Map/Tuple, ...) written out freshly for two differently named fields and a second class, every thread on a DIFFERENT declaration, explicit None / values the earlier options reject / valid values, directed None||None and None||rejected cases - must be sequential; ser streams (E/B): SerializableField items (DateField / DateTime / Enum) as Map key/value, Set item, positional Array/Tuple/Deque item, with a constructing / assigning thread against a DESERIALIZING thread (document = serialized image of its kwargs) on the same field; cold streams (B line-level sampling + E exhaustive at every line of the cache-filling functions found by the translator): classes with TO_CAMELCASE / TO_LOWERCASE / dict / nested mappers REBUILT for every schedule (cold per-class caches), thread programs deserialize||deserialize, serialize||serialize, serialize||deserialize, construct||deserialize. evaluations counts cases; each case runs 25-1500 schedules (histogram schedules-per-case). "
         "non-trivial = >= 2 threads on a non-scalar shape, distinct by sha256 of the case")
 ASSUMPTIONS = [
     "PARTIAL: pre-emption only at statement/line boundaries inside typedpy files, driven by sys.settrace with one "
@@ -43,7 +43,9 @@ ASSUMPTIONS = [
 TRUSTED_EXTRA = [
     "extract/field_aliases.py (dynamic probe: every declaration spelling written out freshly for two fields and a second "
     "class; Field objects reachable from two declarations -> Generated/FieldAliases.lean); covers the listed spellings only",
-    "extract/shared_writes.py (AST scan of the working tree -> Generated/SharedWrites.lean) and its classification of "
+    "extract/shared_writes.py (AST scan of the working tree -> Generated/SharedWrites.lean; Field objects are `self` of Field "
+    "classes, names derived from it, parameters called *field* and names tested with isinstance(x, <Field class>); module-level "
+    "dict caches with publish-before-fill detection) and its classification of "
     "written values (perCall / ownerName / definitionOnly / keyedCache)",
     "harness/suites/sched.py scheduler: a schedule is realised faithfully (one thread at a time, switch only at yield points)",
 ]
